@@ -12,6 +12,7 @@ class VLoop(asyncio.SelectorEventLoop):
         self.events = []
         self.scripts = []
         self.nsock = 0
+        self.nsend = 0          # transmissions so far (over all sockets): the n-th transmission meets the n-th outcome of the script
         self.errors = []
         self.TIMEOUT = 2
         self.set_exception_handler(lambda loop, ctx: self.errors.append(repr(ctx.get("exception") or ctx.get("message"))))
@@ -34,18 +35,17 @@ class VLoop(asyncio.SelectorEventLoop):
     async def create_datagram_endpoint(self, protocol_factory, local_addr=None, remote_addr=None, **kw):
         self.nsock += 1
         k = self.nsock
-        script = self.scripts[k - 1] if k <= len(self.scripts) else "none"
         proto = protocol_factory()
-        tr = FakeTransport(self, proto, k, script)
+        tr = FakeTransport(self, proto, k)
         self.log(e="open", k=k)
         proto.connection_made(tr)
         return tr, proto
 
 
 class FakeTransport(asyncio.DatagramTransport):
-    def __init__(self, loop, proto, k, script):
+    def __init__(self, loop, proto, k):
         super().__init__()
-        self.loop, self.proto, self.k, self.script, self.closed = loop, proto, k, script, False
+        self.loop, self.proto, self.k, self.closed, self.closed_by = loop, proto, k, False, ""
 
     def get_extra_info(self, name, default=None):
         return default
@@ -54,18 +54,23 @@ class FakeTransport(asyncio.DatagramTransport):
         return self.closed
 
     def sendto(self, data, addr=None):
+        # the n-th transmission of the call (whichever socket it leaves from) meets the n-th outcome of the script; what comes back
+        # comes back to the socket it was sent from - if that socket is still open then
+        self.loop.nsend += 1
+        n = self.loop.nsend
         if self.closed:
-            self.loop.log(e="sendto_on_closed", k=self.k)
+            # asyncio discards a datagram handed to a closed transport (closed by the client itself, or gone)
+            self.loop.log(e="sendto_on_closed", k=self.k, by=self.closed_by)
             return
-        self.loop.log(e="sendto", k=self.k, payload=list(data))
-        s, T = self.script, self.loop.TIMEOUT
+        self.loop.log(e="sendto", k=self.k, n=n, payload=list(data))
+        s, T = (self.loop.scripts[n - 1] if n <= len(self.loop.scripts) else "none"), self.loop.TIMEOUT
         if s == "reply":
-            self.loop.call_later(T / 2, self._deliver, self.reply(1))
+            self.loop.call_later(T / 2, self._deliver, self.reply(n, 1))
         elif s == "late":
-            self.loop.call_later(T * 1.5, self._deliver, self.reply(1))
+            self.loop.call_later(T * 1.5, self._deliver, self.reply(n, 1))
         elif s == "two":
-            self.loop.call_later(T / 2, self._deliver, self.reply(1))
-            self.loop.call_later(T / 2, self._deliver, self.reply(2))
+            self.loop.call_later(T / 2, self._deliver, self.reply(n, 1))
+            self.loop.call_later(T / 2, self._deliver, self.reply(n, 2))
         elif s == "icmp":
             self.loop.call_later(T / 2, self._error, ConnectionRefusedError(111, "Connection refused"))
         elif s == "lost":
@@ -73,9 +78,9 @@ class FakeTransport(asyncio.DatagramTransport):
         elif s == "gone":            # the transport goes away cleanly (connection_lost(None)) before anything arrived
             self.loop.call_later(T / 2, self._lost, None)
 
-    def reply(self, n):
+    def reply(self, n, j):
         base = getattr(self.loop, "reply_payload", b"REPLY")
-        return base + bytes([self.k, n]) + getattr(self.loop, "reply_tail", b"")
+        return base + bytes([n, j]) + getattr(self.loop, "reply_tail", b"")
 
     def _deliver(self, data):
         if self.closed:
@@ -93,20 +98,20 @@ class FakeTransport(asyncio.DatagramTransport):
     def _lost(self, exc):
         if self.closed:
             return
-        self.closed = True
-        self.loop.log(e="lost", k=self.k)
+        self.closed, self.closed_by = True, "env"
+        self.loop.log(e="lost" if exc is not None else "gone", k=self.k)
         self.proto.connection_lost(exc)
 
     def close(self):
         if self.closed:
             return
-        self.closed = True
+        self.closed, self.closed_by = True, "client"
         self.loop.log(e="close", k=self.k)
         self.loop.call_soon(self.proto.connection_lost, None)
 
     def abort(self):
         if self.closed:
             return
-        self.closed = True
+        self.closed, self.closed_by = True, "client"
         self.loop.log(e="abort", k=self.k)
         self.loop.call_soon(self.proto.connection_lost, None)
